@@ -20,11 +20,18 @@ Which(a, m) == IF a.name # m.name THEN "message type recognised as " \o a.name
                ELSE IF a.hdr # m.hdr THEN "header octets differ"
                ELSE IF a.mand # m.mand THEN "mandatory part differs: " \o Str(a.mand) \o " instead of " \o Str(m.mand)
                ELSE "optional IEs differ: " \o Str(a.opt) \o " instead of " \o Str(m.opt)
-ExplainNas(e) ==
-   IF e.kind = "unknown" THEN (IF e.obs.err /\ ~e.obs.panic THEN Ok ELSE No("C08: an unknown message type was not reported as an error"))
+\* C09 and C08 are judged independently on the same event: a decode that departs from the TS 24.501 tables (C09) does not hide that the
+\* library fails to re-encode the canonical octets or to round-trip its own encoding (C08), and vice versa
+C09Nas(e) ==
+   IF e.kind = "unknown" THEN Ok
    ELSE LET m == e.abs o == e.obs IN
         IF o.err THEN No("C09: the TS 24.501 encoding of " \o m.name \o " is rejected by the library")
         ELSE IF ~SameAbs(o.abs, m) THEN No("C09: " \o m.name \o " built per TS 24.501 decodes differently: " \o Which(o.abs, m))
+        ELSE Ok
+C08Nas(e) ==
+   IF e.kind = "unknown" THEN (IF e.obs.err /\ ~e.obs.panic THEN Ok ELSE No("C08: an unknown message type was not reported as an error"))
+   ELSE LET m == e.abs o == e.obs IN
+        IF o.err THEN No("C08: a well-formed " \o m.name \o " in canonical IE order is rejected, so it cannot be re-encoded")
         ELSE IF ~o.abs.lenOK THEN No("C08: a length field of the decoded " \o m.name \o " disagrees with its contents")
         ELSE IF o.reErr \/ o.re # e.canon THEN No("C08: re-encoding the decoded " \o m.name \o " does not reproduce the octets: " \o Str(o.re) \o " instead of " \o Str(e.canon))
         ELSE IF ~o.stable THEN No("C08: decode(encode(m)) differs from m for " \o m.name)
@@ -80,12 +87,17 @@ ExplainPath(e) ==
                           \cup want(m.name # "DeregistrationRequestUEOriginatingDeregistration" \/ m.mand[1][1] % 4 = a.accessType, "access type is not the given one")
                    [] OTHER -> {"unknown constructor"} IN
         IF cs = {} THEN Ok ELSE No("C09: " \o e.fn \o ": " \o (CHOOSE x \in cs : TRUE))
-Explain(e) == CASE e.ev = "Nas" -> ExplainNas(e) [] e.ev = "Path" -> ExplainPath(e) [] OTHER -> No("no action of the specification matches this event")
+Explain(e) == CASE e.ev = "Path" -> ExplainPath(e) [] OTHER -> No("no action of the specification matches this event")
 Init == l = 1 /\ bad = 0
 Next == /\ l <= Len(Trace)
-        /\ LET e == Trace[l] r == Explain(e) IN
-             /\ Report(l, e, r)
-             /\ bad' = bad + (IF r.ok THEN 0 ELSE 1)
+        /\ LET e == Trace[l] IN
+             IF e.ev = "Nas"
+             THEN LET r9 == C09Nas(e) r8 == C08Nas(e) IN
+                  /\ Report(l, e, r9) /\ Report(l, e, r8)
+                  /\ bad' = bad + (IF r9.ok THEN 0 ELSE 1) + (IF r8.ok THEN 0 ELSE 1)
+             ELSE LET r == Explain(e) IN
+                  /\ Report(l, e, r)
+                  /\ bad' = bad + (IF r.ok THEN 0 ELSE 1)
         /\ l' = l + 1
 Consumed == TLCGet("stats").diameter - 1 = Len(Trace)
 =============================================================================
